@@ -249,6 +249,53 @@ def gen_doc(rng, idx):
     return g
 
 
+def gen_dtd(rng, toks):
+    """internal DTD subset with attribute defaults for some of the element names of the document: unprefixed names, prefixed
+    names (prefixes of the document, xml), xmlns / xmlns:p declarations; D = default, F = #FIXED.  Local names of defaulted
+    attributes are disjoint from the written ones, so no expanded name can collide."""
+    elems, prefixes = [], []
+    i = 0
+    while i < len(toks):
+        if toks[i] == "S":
+            qn = toks[i + 2] if toks[i + 1] == "-" else toks[i + 1] + ":" + toks[i + 2]
+            if qn not in elems:
+                elems.append(qn)
+            k = int(toks[i + 4])
+            for j in range(k):
+                if toks[i + 5 + 3 * j] == "xmlns" and toks[i + 6 + 3 * j] not in prefixes:
+                    prefixes.append(toks[i + 6 + 3 * j])
+            i += 5 + 3 * k
+        else:
+            i += 1
+    prefixes = [p for p in prefixes if p not in ("xml", "xmlns")]
+    out = []
+    for e in rng.sample(elems, min(len(elems), rng.choice([1, 2, 2, 3]))):
+        locs = ["da", "db", "dc", "dd"]
+        rng.shuffle(locs)
+        decl_p = False
+        for _ in range(rng.choice([1, 1, 2, 3])):
+            x = rng.random()
+            kind = rng.choice(["D", "F"])
+            if x < 0.4:
+                out += [e, "-", locs.pop(), kind, "dv%d" % rng.randrange(3)]
+            elif x < 0.55 and prefixes:
+                out += [e, rng.choice(prefixes), locs.pop(), kind, "pv"]
+            elif x < 0.62:
+                out += [e, "xml", "lang", kind, "en"]
+            elif x < 0.82 and not decl_p:
+                decl_p = True
+                out += [e, "xmlns", rng.choice(prefixes + PREFIXES[:6]), kind, rng.choice(URIS)]
+            elif not any(out[5 * k] == e and out[5 * k + 1] == "-" and out[5 * k + 2] == "xmlns" for k in range(len(out) // 5)):
+                out += [e, "-", "xmlns", kind, rng.choice(URIS + ["-"])]
+    ents, seen = [], set()
+    for k in range(len(out) // 5):
+        e = out[5 * k:5 * k + 5]
+        if (e[0], e[1], e[2]) not in seen:          # one declaration per attribute (a second one is ignored with a warning)
+            seen.add((e[0], e[1], e[2]))
+            ents += e
+    return ["DTD", str(len(ents) // 5)] + ents
+
+
 def doc_queries(toks):
     """every prefix and namespace name that occurs in the document (bounded)"""
     ps, us = [], []
@@ -276,6 +323,26 @@ def doc_queries(toks):
         else:
             i += 1
     return ps[:44], us[:10]
+
+
+def growth_docs():
+    """one start tag with k >= 17 xmlns:* declarations (distinct namespace names) and every one of the prefixes used by an
+    attribute of the same tag and by a child element: after each expandMap (at the 17th, 21st, 26th, 32nd declaration) every
+    earlier entry -- in particular the 9th..16th -- must still resolve"""
+    out = []
+    for k in (16, 17, 20, 21, 25, 26, 31, 32, 40):
+        atts = []
+        for i in range(1, k + 1):
+            atts += ["xmlns", "g%d" % i, "urn:g%d" % i]
+        for i in range(1, k + 1):
+            atts += ["g%d" % i, "a%d" % i, "v"]
+        kids = []
+        for i in range(1, k + 1):
+            kids += ["S", "g%d" % i, "c", "e", "0"]
+        doc = ["S", "g9", "r", "n", str(2 * k)] + atts + kids + ["E"]
+        for sc in SCANNERS:
+            out.append("parse sax2p %s 10 0 0 %s" % (sc, " ".join(doc)))
+    return out
 
 
 def gen_stack_ops(rng):
@@ -443,13 +510,15 @@ def spec_verdict(api, toks, qs, us, impl, spec_line):
                 if nd[2] != tg[0] or nd[3] != tg[1]:
                     return "element prefix/localName %s/%s, document has %s/%s" % (nd[2], nd[3], tg[0], tg[1])
                 k = int(nd[4])
-                got = {}
+                got = []
                 for i in range(k):
                     ans, ap, al = nd[5 + 4 * i], nd[6 + 4 * i], nd[7 + 4 * i]
-                    got[al if ap == "-" else ap + ":" + al] = ans
-                exp = {}
+                    got.append((al if ap == "-" else ap + ":" + al, ans))
+                exp = []
                 for a, ns in zip(tg[2], en[2]):
-                    exp[a[0]] = XMLNS_URI if a[0] == "xmlns" else ns
+                    exp.append((a[0], XMLNS_URI if a[0] == "xmlns" else ns))
+                got.sort()
+                exp.sort()
                 if got != exp:
                     return "attribute namespaces %s, the Spec expects %s" % (got, exp)
                 rest = nd[5 + 4 * k:]
@@ -491,7 +560,14 @@ WITNESSES = [
     ("F27", "parse sax2p wf 10 0 0 S - r e 104 xmlns a urn:u xmlns b urn:u a x 1 " +
             " ".join("- n%d v" % i for i in range(100)) + " b x 2"),
     # SGXMLScanner: the 29th distinct attribute is lost by the duplicate registry (Hash2KeysSetOf rehash)
+    ("F30", "parse sax2p dg 10 0 0 S - a n 1 - xmlns urn:d S p b e 1 xmlns p urn:p E"),
     ("F29", "parse sax2p sg 10 0 0 S - b e 30 " + " ".join("- n%d v" % i for i in range(1, 29)) + " - k 1 - k 2"),
+    # DTD-defaulted attributes: unprefixed default under a default namespace (must stay in no namespace), defaulted
+    # xmlns / xmlns:p (must bind), prefixed default
+    ("DTD", "parse sax2p ig 10 0 0 DTD 3 a - da D dv a p db F fv b - dc D cv S - a n 2 - xmlns urn:d xmlns p urn:p "
+            "S - b e 0 S - b n 1 - xmlns - S - a e 2 xmlns p urn:q - da w E E"),
+    ("DTD", "parse dom ig 10 1 p 1 urn:d DTD 2 a - da D dv b - dc D cv S - a n 2 - xmlns urn:d xmlns p urn:p S - b e 0 E"),
+    ("DTD", "parse sax2p ig 10 0 0 DTD 3 a xmlns p D urn:p a - xmlns D urn:d a p x D 1 S p a n 0 S - b e 0 E"),
     # XML 1.1: attribute using a prefix that was un-declared
     ("F28", "parse sax2p ig 11 0 0 S - r n 1 xmlns p urn:u S - c e 2 xmlns p - p x 1 E"),
     ("F28", "parse dom ig 11 0 0 S - r n 1 xmlns p urn:u S - c e 2 xmlns p - p x 1 E"),
@@ -509,7 +585,7 @@ def classify(req, impl, why=""):
         return None
     api, sc, ver = a[1], a[2], a[3]
     accepted = "FATAL" not in impl and "was accepted" in why
-    toks = request_parts(req)[5]
+    toks = request_parts(req)[7]
     # the tags with the bindings in scope at each of them (python-side bookkeeping for the label only)
     scopes, stack, i = [], [{}], 0
     while i < len(toks):
@@ -535,6 +611,8 @@ def classify(req, impl, why=""):
         return "F27"
     if sc == "sg" and accepted and any(len(atts) > 28 for atts, _ in scopes):
         return "F29"
+    if sc == "dg" and api in ("sax2p", "sax2") and "UnknownNS" in impl:
+        return "F30"
     if sc == "wf" and accepted and any(ap == "xmlns" and al != "xml" and av in (XML_URI, XMLNS_URI)
                                        for atts, _ in scopes for ap, al, av in atts):
         return "F26"
@@ -542,14 +620,48 @@ def classify(req, impl, why=""):
 
 
 def request_parts(req):
+    """(api, scanner, version, prefixes, uris, dtd tokens, document tokens, effective document tokens)"""
     a = req.split()
     if a[0] == "parse":
         nq = int(a[4])
         qs = a[5:5 + nq]
         nu = int(a[5 + nq])
         us = a[6 + nq:6 + nq + nu]
-        return a[1], a[2], a[3], qs, us, a[6 + nq + nu:]
+        rest = a[6 + nq + nu:]
+        dtd = []
+        if rest and rest[0] == "DTD":
+            n = int(rest[1])
+            dtd = rest[:2 + 5 * n]
+            rest = rest[2 + 5 * n:]
+        return a[1], a[2], a[3], qs, us, dtd, rest, effective_toks(dtd, rest)
     return None
+
+
+def effective_toks(dtd, toks):
+    """a defaulted / #FIXED attribute the tag does not write counts like a written one (appended in declaration order)"""
+    if not dtd:
+        return toks
+    defs = {}
+    for k in range(int(dtd[1])):
+        e, ap, al, kind, v = dtd[2 + 5 * k:7 + 5 * k]
+        defs.setdefault(e, []).append((ap, al, v))
+    out = []
+    i = 0
+    while i < len(toks):
+        if toks[i] == "S":
+            k = int(toks[i + 4])
+            atts = toks[i + 5:i + 5 + 3 * k]
+            qn = toks[i + 2] if toks[i + 1] == "-" else toks[i + 1] + ":" + toks[i + 2]
+            written = set((atts[3 * j], atts[3 * j + 1]) for j in range(k))
+            extra = [d for d in defs.get(qn, []) if (d[0], d[1]) not in written]
+            out += toks[i:i + 4] + [str(k + len(extra))] + atts
+            for d in extra:
+                out += list(d)
+            i += 5 + 3 * k
+        else:
+            out.append(toks[i])
+            i += 1
+    return out
 
 
 def process(ctx, xh, xm, cases, st):
@@ -570,8 +682,8 @@ def process(ctx, xh, xm, cases, st):
     for k, (kind, req, _) in enumerate(cases):
         parts = request_parts(req)
         if parts:
-            api, sc, ver, qs, us, toks = parts
-            key = " ".join(("spec_doc %s %d %s %d %s %s" % (ver, len(qs), " ".join(qs), len(us), " ".join(us), " ".join(toks))).split())
+            api, sc, ver, qs, us, dtd, toks, etoks = parts
+            key = " ".join(("spec_doc %s %d %s %d %s %s %s" % (ver, len(qs), " ".join(qs), len(us), " ".join(us), " ".join(dtd), " ".join(toks))).split())
             if key not in spec_idx:
                 spec_idx[key] = len(spec_req)
                 spec_req.append(key)
@@ -613,10 +725,10 @@ def process(ctx, xh, xm, cases, st):
                 if got != want:
                     return "mapPrefixToURI answers %s, the declarations in scope give %s" % (got[:40], want[:40])
             return None
-        api, sc, ver, qs, us, toks = parts
-        key = " ".join(("spec_doc %s %d %s %d %s %s" % (ver, len(qs), " ".join(qs), len(us), " ".join(us), " ".join(toks))).split())
+        api, sc, ver, qs, us, dtd, toks, etoks = parts
+        key = " ".join(("spec_doc %s %d %s %d %s %s %s" % (ver, len(qs), " ".join(qs), len(us), " ".join(us), " ".join(dtd), " ".join(toks))).split())
         try:
-            r = spec_verdict(api, toks, qs, us, i, spec_out[spec_idx[key]])
+            r = spec_verdict(api, etoks, qs, us, i, spec_out[spec_idx[key]])
         except Exception as e:       # an answer the oracle cannot even read
             r = "unreadable answer (%r): %s" % (e, i[:200])
         if r:
@@ -637,6 +749,25 @@ def process(ctx, xh, xm, cases, st):
             st["answers"]["FATAL" if "FATAL" in i else "END/OK"] += 1
             if "xmlns" in req:
                 ctx.distinct(req)
+        if kind == "known-F31":
+            # literal witness of F31: not compared with the model (no repaired model exists); reported only if it reproduces
+            if i.count(" p db fv") >= 2:
+                if ctx.find_known("F31"):
+                    ctx.known_finding("F31", "DOM: a DTD-defaulted attribute with a prefix (p:db) appears twice, the second copy "
+                                      "in the XML namespace (prototype created by AbstractDOMParser::endAttList); witness `%s`" % req)
+                else:
+                    ctx.violation("F31", {"request": req, "impl": i[:2000], "what": "duplicate defaulted attribute in the XML namespace"})
+            continue
+        if kind == "known-F32":
+            if "SE - a a" in i:
+                if ctx.find_known("F32"):
+                    ctx.known_finding("F32", "DGXMLScanner: a namespace declaration defaulted through the DTD is not in scope for "
+                                      "the names of its own start tag (element reported in no namespace); witness `%s`" % req)
+                else:
+                    ctx.violation("F32", {"request": req, "impl": i[:2000], "what": "defaulted xmlns not in scope (DG)"})
+            elif i != m:
+                divergences.append(k)
+            continue
         if i != m:
             divergences.append(k)
             continue
@@ -671,6 +802,10 @@ def process(ctx, xh, xm, cases, st):
                                              "what": "implementation differs from the model and violates the Spec" +
                                                      (" (finding %s of known-findings.d/C06.json: its fix: commit is missing "
                                                       "from this tree)" % fid if fid else "")})
+        elif req.split()[2] == "dg" and "FATAL" in impl[k] and "FATAL" in model[k]:
+            # DGXMLScanner is compared against the IG model; it checks a tag in another order (attributes as they are
+            # scanned, the element name last), so a tag with several errors may report another one of them: Spec decides
+            st["dg_other_error"] = st.get("dg_other_error", 0) + 1
         else:
             st["unexplained"].append((req, impl[k][:4000], model[k][:4000]))
     return True
@@ -689,6 +824,10 @@ def gen_batches(ctx, feats):
     done = 0
     while done < ndocs:
         cases = [("witness-" + tag, req, None) for tag, req in WITNESSES] if first else []
+        if first:
+            cases.append(("known-F31", "parse dom ig 10 0 0 DTD 1 a p db F fv S - a e 1 xmlns p urn:p", None))
+            cases.append(("known-F32", "parse sax2p dg 10 0 0 DTD 1 a - xmlns D urn:d S - a n 0 S - b e 0 E", None))
+            cases += [("growth", req, None) for req in growth_docs()]
         first = False
         for d in range(done, min(ndocs, done + per)):
             g = gen_doc(ctx.rng, d)
@@ -700,6 +839,32 @@ def gen_batches(ctx, feats):
                 for sc in SCANNERS:
                     cases.append(("doc-%s-%s" % (api, sc), "parse %s %s %s %s" % (api, sc, g.ver, body), g))
         done += per
+        # documents with an internal DTD subset (attribute defaults): IGXMLScanner and DGXMLScanner read it
+        for d in range(per // 3):
+            g = DocGen(ctx.rng, "11" if ctx.rng.random() < 0.1 else "10",
+                       ctx.rng.choice(ERR_KINDS) if ctx.rng.random() < 0.15 else None, "normal")
+            g.element(0, {}, "", ctx.rng.choice([1, 2, 3, 4]))
+            dtd = gen_dtd(ctx.rng, g.toks)
+            qs, us = doc_queries(effective_toks(dtd, g.toks))
+            feats["dtd-defaults"] = feats.get("dtd-defaults", 0) + 1
+            for api in ("sax2p", "sax2", "dom"):
+                # F31 (known finding): through the DOM a defaulted attribute with an ordinary prefix is duplicated in the XML
+                # namespace; exactly that class is excluded from the DOM requests
+                dd = dtd
+                if api == "dom":
+                    ents = [dtd[2 + 5 * k:7 + 5 * k] for k in range(int(dtd[1]))]
+                    ents = [e for e in ents if e[1] in ("-", "xml", "xmlns")]
+                    dd = ["DTD", str(len(ents))] + [t for e in ents for t in e]
+                for sc in ("ig", "dg"):
+                    d2 = dd
+                    if sc == "dg":
+                        # F32 (known finding): DGXMLScanner does not put defaulted namespace declarations in scope for the tag
+                        # itself; exactly that class is excluded from the DG requests
+                        ents = [d2[2 + 5 * k:7 + 5 * k] for k in range(int(d2[1]))]
+                        ents = [e for e in ents if not (e[1] == "xmlns" or (e[1] == "-" and e[2] == "xmlns"))]
+                        d2 = ["DTD", str(len(ents))] + [t for e in ents for t in e]
+                    body = " ".join(("%d %s %d %s %s %s" % (len(qs), " ".join(qs), len(us), " ".join(us), " ".join(d2), " ".join(g.toks))).split())
+                    cases.append(("dtd-%s-%s" % (api, sc), "parse %s %s %s %s" % (api, sc, g.ver, body), g))
         for _ in range(nstack * per // ndocs + 1):
             cases.append(("stack", gen_stack_ops(ctx.rng), None))
         yield cases
@@ -718,13 +883,19 @@ def run(ctx):
                        "(state carried between documents by a reused parser is the subject of C15)",
                        "null and the empty string are identified in DOM answers (XMLString::equals does the same)"]
     ctx.build_lib()
+    translator_error = None
+    consts = {}
     try:
         consts = T.generate()
     except Exception as e:
-        ctx.note("translator failed: %r" % (e,))
-        ctx.violation("translator", {"what": "translator can no longer read the ElemStack constants / error codes",
-                                     "error": repr(e)}, no_input=True)
-        return
+        # the tie by translation is broken: the correspondence below is the search for a concrete failing document (the
+        # growth documents are aimed at expandMap / expandStack); the last generated constants stay in place
+        translator_error = repr(e)
+        ctx.note("translator failed: %r -- searching for a failing input with the correspondence" % (e,))
+        if not os.path.exists(os.path.join(V.COQ, "theories", "Gen", "GenElemStack.v")):
+            ctx.violation("translator", {"what": "translator can no longer read the ElemStack constants / error codes and no "
+                                         "earlier GenElemStack.v exists", "error": translator_error}, no_input=True)
+            return
     ok, out, failed = ctx.prove(["Base", "Gen", "C06"],
                                 ["theories/C06/Properties_C06.vo", "theories/C06/Extract_C06.vo"],
                                 props_file="theories/C06/Properties_C06.v")
@@ -761,6 +932,12 @@ def run(ctx):
                                          "impl": i, "model": m, "count": len(st["unexplained"])}, no_input=True)
     elif st["unexplained"]:
         ctx.note("%d further divergences satisfy the Spec (first: %s)" % (len(st["unexplained"]), st["unexplained"][0][0][:300]))
+    if translator_error and not ctx.violations:
+        ctx.violation("translator", {"what": "translator can no longer read the ElemStack constants / memcpy extents / error "
+                                     "codes, and the correspondence found no failing input", "error": translator_error},
+                      no_input=True)
+    elif translator_error:
+        ctx.note("translator failure explained by a concrete failing input (see the replays)")
     if proof_broken and not ctx.violations:
         ctx.violation("obligation", {"what": "Coq obligation no longer checks and no failing input was found by the "
                                      "correspondence sweeps", "failed": failed, "output": out[-3000:]}, no_input=True)
